@@ -1,0 +1,28 @@
+//go:build verif
+
+// Contracts for package clients/connectors (comment-only; read by /verif/govc).
+
+package connectors
+
+// ---- host key trust on the connection side (C17) ---------------------------------------------------
+// The SSH client configuration carries the callback the trust object wraps (so
+// the library asks it about every host key), and a session — the only place
+// commands are sent from — is opened only on a client the library handed out,
+// i.e. after the callback let the connection proceed.
+//@ func NewServerConnection
+//@   requires [callback] !isnil(hostKeyCallback)
+//@   bind wrapped == HostKeyCallback.Wrap
+//@   ensures [asks-the-trust-object] result != nil && result.config != nil && result.config.HostKeyCallback == wrapped
+//@   ensures [own-server] result.server == server
+
+//@ func (*ServerConnection).initServerPort
+//@   assigns c.hostname, c.port
+
+//@ func (*ServerConnection).dial
+//@   bind dialled == ssh.Dial
+//@   at-call ).session [only-on-an-established-connection] isnil(dialled1) && arg3 == dialled0
+//@   at-call ssh.Dial [with-the-own-configuration] arg2 == c.config
+//@ func (*ServerConnection).session
+//@   callers-only (*ServerConnection).dial
+//@ func (*ServerConnection).handle
+//@   callers-only (*ServerConnection).session
